@@ -22,6 +22,23 @@ chk("C14", "latx+seqx", "exploration",
     "compared with fractions.Fraction arithmetic; the space is finite and enumerated completely.",
     "IEEE-754 semantics of this CPU/CPython; inputs between lattice points are not covered.", "DESIGN.md §5/C14")
 
+chk("C15", "latx", "exploration",
+    "exhaustive enumeration of a critical-value lattice (box lengths x positions x ordered position pairs x "
+    "dimensions x both implementations) on the real periodic-boundary classes against exact rational modular "
+    "arithmetic",
+    "All lattice points are evaluated on the real HypercubicPeriodicBoundaries / HypercuboidPeriodicBoundaries and "
+    "compared with Fraction arithmetic (range, congruence, idempotence, |s| <= L/2, cubic == cuboid bit for bit).",
+    "IEEE-754 semantics of this CPU/CPython; inputs between lattice points are not covered.", "DESIGN.md §5/C15")
+
+chk("C16", "latx", "exploration",
+    "exhaustive enumeration of cell grids: every float within 4 ulp of every cell/box boundary, every cell and every "
+    "ordered pair of cells of each grid, on the real cell classes against index arithmetic modulo n",
+    "For each grid of a (L, n) lattice and of a list of 2-D/3-D grids with unequal counts the real CuboidCells / "
+    "CuboidPeriodicCells object is built and every boundary float, cell and cell pair is checked (partition, abutting "
+    "extents, monotone map, neighbour/nearby/relative/translate == torus index arithmetic).",
+    "Cell boundaries may lie within 4 ulp(L) of k L/n; grids outside the lattice are not covered.",
+    "DESIGN.md §5/C16")
+
 ENGINES = [
     {"name": "latx", "path": "jfv/par.py", "serves_properties": ["C14", "C15", "C16", "C05", "C18", "C02", "C03",
                                                                     "C04", "C10"],
